@@ -59,9 +59,8 @@ func (b *exampleBuilder) build(node internalSchema.Node) ([]byte, error) {
 }
 
 func (b *exampleBuilder) buildExampleForObjectNode(node *internalSchema.ObjectNode) ([]byte, error) {
-	if node.Constraint(constraint.TypesListConstraintType) != nil {
-		return nil, errors.ErrUserTypeFound
-	}
+	// An object carrying an "or" rule has passed the check only if it has no
+	// children and "{}" satisfies one of the rule sets: it is its own example.
 
 	buf := exampleBufferPool.Get()
 	defer exampleBufferPool.Put(buf)
@@ -140,9 +139,7 @@ func escapeJSONString(s string) []byte {
 }
 
 func (b *exampleBuilder) buildExampleForArrayNode(node *internalSchema.ArrayNode) ([]byte, error) {
-	if node.Constraint(constraint.TypesListConstraintType) != nil {
-		return nil, errors.ErrUserTypeFound
-	}
+	// See buildExampleForObjectNode: "[]" with an "or" rule is its own example.
 
 	buf := exampleBufferPool.Get()
 	defer exampleBufferPool.Put(buf)
